@@ -192,6 +192,8 @@ REF_FCN REF_STATUS ref_matrix_diag_m(REF_DBL *m, REF_DBL *d) {
       if (ABS(tst2 - tst1) <= 1.0e-14 * tst1) break;
       /* e[2] is always zero, so there is no exit through the bottom of loop*/
     }
+    /* unless an intermediate overflowed: tst2 - tst1 is then not a number */
+    RAS(mm < 3, "no negligible sub-diagonal, non-finite intermediate");
     if (mm != l) { /* l_not_equal_mm */
       do {
         j = j + 1;
